@@ -13,7 +13,7 @@ open Conv
      Cur = as shipped (remove_ext keeps only the outermost extension kind: finding roundtrip:mixed-ext-chain);
      Fix = with patches/0001-fix-to_arith-mixed-extension-chain.diff applied (theorem arith_roundtrip_fixed).
    Flip to Fix together with the fix: commit in /repo. *)
-let code_variant = Cur
+let code_variant = Fix
 
 let rec arith_of_sexp (x : Sexp.t) : arith =
   let open Sexp in
